@@ -1,10 +1,17 @@
 import FormulaicVerif.Proofs.C16Tree
 import FormulaicVerif.Proofs.C16Parse
 import FormulaicVerif.Proofs.C16Total
+import FormulaicVerif.Proofs.C16Forms
+import FormulaicVerif.Proofs.C16Hom
+import FormulaicVerif.Proofs.C16Render
+import FormulaicVerif.Proofs.C16Order
 import FormulaicVerif.Gen.OperatorTable
+import FormulaicVerif.Gen.ConstraintMessages
 /-! # C16 — Linear-constraint specifications compile to the affine map they express
 
-Property theorems only; helper lemmas are in `Proofs/C16Terms.lean` and `Proofs/C16Tree.lean`.
+Property theorems only; helper lemmas are in `Proofs/C16Terms.lean`, `Proofs/C16Tree.lean`,
+`Proofs/C16Accept.lean` (which trees are accepted), `Proofs/C16Hom.lean` (homomorphism laws, uniqueness of the
+row) and `Proofs/C16Forms.lean` (the specification forms and the constructor).
 Every `theorem` here is an obligation audited with `#print axioms`.
 
 Vocabulary (all from `Model/Constraints.lean` and `Spec/Affine.lean`):
@@ -270,5 +277,483 @@ example : (FormulaicVerif.Model.ConstraintParse.parse (asciiChars "-a + 2*(b, c)
         (.leaf .value "3"))
     ∧ parseString asciiChars "(a + b" = .error "FormulaSyntaxError" :=
   ⟨by decide +kernel, by rfl, by rfl⟩
+
+
+/-! ## Exactly which specifications are accepted
+
+`nonlinear_rejected` is one half of a characterisation. `Spec/Affine.lean` defines `acceptable names n`:
+the tree is a comma-separated list of scalar expressions with numeric literals, nowhere a product of two
+column-mentioning subexpressions or a division by one, no division by a constant that is zero, and
+every name it mentions is a column. -/
+
+/-- **C16.a1**  The compiler returns a matrix for a specification EXACTLY when every string it parses is
+acceptable (and a mapping is not empty): the syntactically linear fragment is accepted completely, and
+nothing outside it is accepted — whatever the set iteration order. (`(a-a)*b` is outside: both factors
+mention a column.) -/
+theorem accepted_iff (sh : Shuffle) (hsh : IsShuffle sh) (names : List String) (parse : String → Parsed) (spec : Spec) :
+    (∃ A b, fromSpec sh names parse spec = .ok (A, b)) ↔ specAcceptable names parse spec :=
+  fromSpec_ok_iff hsh names parse spec
+
+/-- **C16.a2**  The same for one tree, and what the scalar evaluator needs: `toTerms` yields a set of
+scaled factors exactly on scalar expressions with numeric literals that are syntactically linear and
+divide by no constant zero; its factors are then exactly the names the tree mentions. -/
+theorem tree_accepted_iff (sh : Shuffle) (hsh : IsShuffle sh) (names : List String) (n : Node) :
+    ((∃ A b, getMatrix sh names (.ast n) = .ok (A, b)) ↔ acceptable names n) ∧
+    ((∃ s, toTerms sh n = .ok (.one s)) ↔
+      ∃ e, exprOf n = some e ∧ nonlinear n = false ∧ (eval env0 e).isSome = true) ∧
+    (∀ s, toTerms sh n = .ok (.one s) → ∀ x, (∃ t ∈ s, t.factor = some x) ↔ x ∈ namesOf n) :=
+  ⟨getMatrix_ok_iff hsh names n, toTerms_scalar_iff hsh n,
+   fun s h x => by rw [← toTerms_keys hsh n s h x]; exact mem_keys.symm⟩
+
+/-- non-vacuity: an acceptable tree, and three unacceptable ones (non-linear, constant zero divisor, unknown name) -/
+example : acceptable ["a", "b"] (.bin .add (.leaf .name "a") (.bin .mul (.leaf .value "2") (.leaf .name "b"))) :=
+  ⟨_, rfl, by decide, by decide +kernel, by decide⟩
+example : ¬ acceptable ["a", "b"] (.bin .mul (.leaf .name "a") (.leaf .name "b")) := by
+  rintro ⟨_, _, hn, _⟩; exact absurd hn (by decide)
+example : ¬ acceptable ["a"] (.bin .div (.leaf .name "a") (.leaf .value "0")) := by
+  intro h
+  obtain ⟨A, b, hh⟩ := (getMatrix_ok_iff isShuffle_id ["a"] _).mpr h
+  have e : getMatrix id ["a"] (.ast (.bin .div (.leaf .name "a") (.leaf .value "0"))) = .error .zeroDiv := by decide +kernel
+  rw [e] at hh; cases hh
+example : ¬ acceptable ["a"] (.leaf .name "zz") := by
+  rintro ⟨_, _, _, _, hnm⟩; exact absurd (hnm "zz" (by simp [namesOf])) (by decide)
+
+/-- **C16.a3**  `l , r` compiles exactly when both sides do, and the rows are those of `l` followed by those
+of `r` (the converse of `rows_in_order_written`, first part). -/
+theorem comma_compiles_iff (sh : Shuffle) (names : List String) (l r : Node) (A : List (List Rat)) (b : List Rat) :
+    getMatrix sh names (.ast (.bin .comma l r)) = .ok (A, b) ↔
+      ∃ A₁ b₁ A₂ b₂, getMatrix sh names (.ast l) = .ok (A₁, b₁) ∧ getMatrix sh names (.ast r) = .ok (A₂, b₂) ∧
+        A = A₁ ++ A₂ ∧ b = b₁ ++ b₂ :=
+  getMatrix_comma_iff sh names l r A b
+
+/-! ## Compiling is a homomorphism
+
+Rows are vectors: `vadd`, `vsub`, `vsmul` are entrywise sum, difference and scalar multiple. Each law
+says: if the compound tree compiles (to one row, necessarily), its operands compile to one row each
+and the compound row is the stated combination. -/
+
+/-- **C16.h1**  `compile (l + r) = compile l + compile r`. -/
+theorem compile_add_hom (sh : Shuffle) (hsh : IsShuffle sh) (names : List String) (l r : Node) (A : List (List Rat)) (b : List Rat)
+    (h : getMatrix sh names (.ast (.bin .add l r)) = .ok (A, b)) :
+    ∃ v₁ c₁ v₂ c₂, getMatrix sh names (.ast l) = .ok ([v₁], [c₁]) ∧ getMatrix sh names (.ast r) = .ok ([v₂], [c₂]) ∧
+      A = [vadd v₁ v₂] ∧ b = [c₁ + c₂] :=
+  FormulaicVerif.Proofs.C16.compile_add hsh names h
+
+/-- **C16.h2**  `compile (l - r) = compile l - compile r`. -/
+theorem compile_sub_hom (sh : Shuffle) (hsh : IsShuffle sh) (names : List String) (l r : Node) (A : List (List Rat)) (b : List Rat)
+    (h : getMatrix sh names (.ast (.bin .sub l r)) = .ok (A, b)) :
+    ∃ v₁ c₁ v₂ c₂, getMatrix sh names (.ast l) = .ok ([v₁], [c₁]) ∧ getMatrix sh names (.ast r) = .ok ([v₂], [c₂]) ∧
+      A = [vsub v₁ v₂] ∧ b = [c₁ - c₂] :=
+  FormulaicVerif.Proofs.C16.compile_sub hsh names h
+
+/-- **C16.h3**  `l = r` compiles to the row of `l - r`: constants and columns on the right-hand side move across
+with the opposite sign. -/
+theorem compile_eq_hom (sh : Shuffle) (hsh : IsShuffle sh) (names : List String) (l r : Node) (A : List (List Rat)) (b : List Rat)
+    (h : getMatrix sh names (.ast (.bin .eq l r)) = .ok (A, b)) :
+    ∃ v₁ c₁ v₂ c₂, getMatrix sh names (.ast l) = .ok ([v₁], [c₁]) ∧ getMatrix sh names (.ast r) = .ok ([v₂], [c₂]) ∧
+      A = [vsub v₁ v₂] ∧ b = [c₁ - c₂] :=
+  FormulaicVerif.Proofs.C16.compile_eq hsh names h
+
+/-- **C16.h4**  `compile (-e) = -compile e`, `compile (+e) = compile e`. -/
+theorem compile_sign_hom (sh : Shuffle) (hsh : IsShuffle sh) (names : List String) (op : Op1) (a : Node)
+    (A : List (List Rat)) (b : List Rat) (h : getMatrix sh names (.ast (.un op a)) = .ok (A, b)) :
+    ∃ v₁ c₁, getMatrix sh names (.ast a) = .ok ([v₁], [c₁]) ∧ A = [unRow op v₁] ∧ b = [unConst op c₁] :=
+  FormulaicVerif.Proofs.C16.compile_un hsh names op h
+
+/-- **C16.h5**  `compile (q * e) = q • compile e` for a numeric literal `q`. -/
+theorem compile_scalar_mul_hom (sh : Shuffle) (hsh : IsShuffle sh) (names : List String) (t : String) (r : Node)
+    (A : List (List Rat)) (b : List Rat) (h : getMatrix sh names (.ast (.bin .mul (.leaf .value t) r)) = .ok (A, b)) :
+    ∃ q v₂ c₂, literalEval t = .ok q ∧ getMatrix sh names (.ast r) = .ok ([v₂], [c₂]) ∧
+      A = [vsmul q v₂] ∧ b = [q * c₂] :=
+  FormulaicVerif.Proofs.C16.compile_smul hsh names h
+
+/-- **C16.h6**  `compile (e / q) = (1/q) • compile e` for a numeric literal `q`, which is not zero. -/
+theorem compile_scalar_div_hom (sh : Shuffle) (hsh : IsShuffle sh) (names : List String) (t : String) (l : Node)
+    (A : List (List Rat)) (b : List Rat) (h : getMatrix sh names (.ast (.bin .div l (.leaf .value t))) = .ok (A, b)) :
+    ∃ q v₁ c₁, literalEval t = .ok q ∧ q ≠ 0 ∧ getMatrix sh names (.ast l) = .ok ([v₁], [c₁]) ∧
+      A = [vsmul (1 / q) v₁] ∧ b = [c₁ / q] :=
+  FormulaicVerif.Proofs.C16.compile_sdiv hsh names h
+
+/-- **C16.h7**  Products and quotients in general: the row of `l * r` expresses the product of the two affine maps,
+the row of `l / r` their quotient, and the divisor's map never vanishes. -/
+theorem compile_mul_div_sem (sh : Shuffle) (hsh : IsShuffle sh) (names : List String) (l r : Node) (A : List (List Rat)) (b : List Rat) :
+    (getMatrix sh names (.ast (.bin .mul l r)) = .ok (A, b) →
+      ∃ v₁ c₁ v₂ c₂ v c, getMatrix sh names (.ast l) = .ok ([v₁], [c₁]) ∧ getMatrix sh names (.ast r) = .ok ([v₂], [c₂]) ∧
+        A = [v] ∧ b = [c] ∧ ∀ x, dot v x - c = (dot v₁ x - c₁) * (dot v₂ x - c₂)) ∧
+    (getMatrix sh names (.ast (.bin .div l r)) = .ok (A, b) →
+      ∃ v₁ c₁ v₂ c₂ v c, getMatrix sh names (.ast l) = .ok ([v₁], [c₁]) ∧ getMatrix sh names (.ast r) = .ok ([v₂], [c₂]) ∧
+        A = [v] ∧ b = [c] ∧ ∀ x, dot v₂ x - c₂ ≠ 0 ∧ dot v x - c = (dot v₁ x - c₁) / (dot v₂ x - c₂)) :=
+  ⟨FormulaicVerif.Proofs.C16.compile_mul hsh names, FormulaicVerif.Proofs.C16.compile_div hsh names⟩
+
+/-- **C16.h8**  A chained equality `a = b = c` is ONE constraint (the code as it is: `=` is an ordinary binary
+operator, `(a = b) = c`): one row, that of `a - b - c`. It is not read as the two constraints `a = b, b = c`. -/
+theorem chained_equalities_one_row (sh : Shuffle) (hsh : IsShuffle sh) (names : List String) (a b c : Node)
+    (A : List (List Rat)) (bb : List Rat) (h : getMatrix sh names (.ast (.bin .eq (.bin .eq a b) c)) = .ok (A, bb)) :
+    ∃ va ca vb cb vc cc, getMatrix sh names (.ast a) = .ok ([va], [ca]) ∧ getMatrix sh names (.ast b) = .ok ([vb], [cb]) ∧
+      getMatrix sh names (.ast c) = .ok ([vc], [cc]) ∧ A = [vsub (vsub va vb) vc] ∧ bb = [ca - cb - cc] := by
+  obtain ⟨v₁, c₁, vc, cc, h1, h2, rfl, rfl⟩ := FormulaicVerif.Proofs.C16.compile_eq hsh names h
+  obtain ⟨va, ca, vb, cb, h3, h4, hA, hb⟩ := FormulaicVerif.Proofs.C16.compile_eq hsh names h1
+  simp only [List.cons.injEq, and_true] at hA hb
+  subst hA; subst hb
+  exact ⟨va, ca, vb, cb, vc, cc, h3, h4, h2, rfl, rfl⟩
+
+/-- **C16.h9**  The linear operations are TOTAL on what compiles: if the scalar expressions `l` and `r` compile (over
+`names`), so do `l + r`, `l - r`, `l = r`, `+l`, `-l`, `q * l`, `l * q` for every numeric literal `q`, and `l / q` for
+every non-zero one (with the rows the homomorphism laws give). Rejection can only come from a leaf, a product of two
+column-mentioning factors, a divisor that mentions a column or is zero, or a `,` under an operator. -/
+theorem linear_operations_total (sh : Shuffle) (hsh : IsShuffle sh) (names : List String) (l r : Node) (ea eb : Expr)
+    (hea : exprOf l = some ea) (heb : exprOf r = some eb)
+    (hl : ∃ A b, getMatrix sh names (.ast l) = .ok (A, b)) (hr : ∃ A b, getMatrix sh names (.ast r) = .ok (A, b)) :
+    (∃ A b, getMatrix sh names (.ast (.bin .add l r)) = .ok (A, b)) ∧
+    (∃ A b, getMatrix sh names (.ast (.bin .sub l r)) = .ok (A, b)) ∧
+    (∃ A b, getMatrix sh names (.ast (.bin .eq l r)) = .ok (A, b)) ∧
+    (∀ op, ∃ A b, getMatrix sh names (.ast (.un op l)) = .ok (A, b)) ∧
+    (∀ t q, literalEval t = .ok q →
+      (∃ A b, getMatrix sh names (.ast (.bin .mul (.leaf .value t) l)) = .ok (A, b)) ∧
+      (∃ A b, getMatrix sh names (.ast (.bin .mul l (.leaf .value t))) = .ok (A, b)) ∧
+      (q ≠ 0 → ∃ A b, getMatrix sh names (.ast (.bin .div l (.leaf .value t))) = .ok (A, b))) := by
+  have g := fun n => getMatrix_ok_iff hsh names n
+  obtain ⟨h1, h2, h3, h4, h5⟩ := linear_ops_acceptable hea heb ((g l).mp hl) ((g r).mp hr)
+  refine ⟨(g _).mpr h1, (g _).mpr h2, (g _).mpr h3, fun op => (g _).mpr (h4 op), fun t q hq => ?_⟩
+  obtain ⟨m1, m2, m3⟩ := h5 t q hq
+  exact ⟨(g _).mpr m1, (g _).mpr m2, fun hz => (g _).mpr (m3 hz)⟩
+
+/-- non-vacuity of the laws: `a + 2*b`, `a = b = 3`, `-(a/2)` over the columns `a, b` -/
+example : getMatrix id ["a", "b"] (.ast (.bin .add (.leaf .name "a") (.bin .mul (.leaf .value "2") (.leaf .name "b"))))
+    = .ok ([[1, 2]], [0]) := by decide +kernel
+example : getMatrix id ["a", "b"] (.ast (.bin .eq (.bin .eq (.leaf .name "a") (.leaf .name "b")) (.leaf .value "3")))
+    = .ok ([[1, -1]], [3]) := by decide +kernel
+example : getMatrix id ["a", "b"] (.ast (.un .neg (.bin .div (.leaf .name "a") (.leaf .value "2"))))
+    = .ok ([[-1/2, 0]], [0]) := by decide +kernel
+
+/-- **C16.u1**  The result is a function of the MAPS the constraints denote, not of how they are written or in
+which form they come: two accepted specifications over the same columns (any forms, parsers, iteration orders)
+whose written constraints have pairwise the same value `lhs − rhs − offset` at every `x` compile to the same
+`(A, b)`. -/
+theorem same_map_same_result (sh₁ sh₂ : Shuffle) (h₁ : IsShuffle sh₁) (h₂ : IsShuffle sh₂) (names : List String)
+    (parse₁ parse₂ : String → Parsed) (spec₁ spec₂ : Spec) (A₁ A₂ : List (List Rat)) (b₁ b₂ : List Rat)
+    (e₁ : fromSpec sh₁ names parse₁ spec₁ = .ok (A₁, b₁)) (e₂ : fromSpec sh₂ names parse₂ spec₂ = .ok (A₂, b₂))
+    (cs₁ cs₂ : List (Expr × Rat)) (w₁ : written parse₁ spec₁ = some cs₁) (w₂ : written parse₂ spec₂ = some cs₂)
+    (hlen : cs₁.length = cs₂.length)
+    (same : ∀ (i : Nat) (hi₁ : i < cs₁.length) (hi₂ : i < cs₂.length) (x : Nat → Rat) (vl vr vl' vr' : Rat),
+      eval (colValue names x) cs₁[i].1.lhs = some vl → eval (colValue names x) cs₁[i].1.rhs = some vr →
+      eval (colValue names x) cs₂[i].1.lhs = some vl' → eval (colValue names x) cs₂[i].1.rhs = some vr' →
+      vl - vr - cs₁[i].2 = vl' - vr' - cs₂[i].2) :
+    A₁ = A₂ ∧ b₁ = b₂ := by
+  obtain ⟨cs₁', w₁', la₁, lb₁, r₁⟩ := compile_sound sh₁ h₁ names parse₁ spec₁ A₁ b₁ e₁
+  obtain ⟨cs₂', w₂', la₂, lb₂, r₂⟩ := compile_sound sh₂ h₂ names parse₂ spec₂ A₂ b₂ e₂
+  rw [w₁] at w₁'; cases w₁'
+  rw [w₂] at w₂'; cases w₂'
+  have key : ∀ (i : Nat) (hA₁ : i < A₁.length) (hA₂ : i < A₂.length) (hb₁ : i < b₁.length) (hb₂ : i < b₂.length),
+      A₁[i] = A₂[i] ∧ b₁[i] = b₂[i] := by
+    intro i hA₁ hA₂ hb₁ hb₂
+    have hc₁ : i < cs₁.length := la₁ ▸ hA₁
+    have hc₂ : i < cs₂.length := la₂ ▸ hA₂
+    exact rowExpresses_unique (r₁ i hA₁ hb₁ hc₁) (r₂ i hA₂ hb₂ hc₂) (same i hc₁ hc₂)
+  constructor
+  · apply List.ext_getElem (by rw [la₁, la₂, hlen])
+    intro i hA₁ hA₂
+    exact (key i hA₁ hA₂ (by rw [lb₁, ← la₁]; exact hA₁) (by rw [lb₂, ← la₂]; exact hA₂)).1
+  · apply List.ext_getElem (by rw [lb₁, lb₂, hlen])
+    intro i hb₁ hb₂
+    exact (key i (by rw [la₁, ← lb₁]; exact hb₁) (by rw [la₂, ← lb₂]; exact hb₂) hb₁ hb₂).2
+
+/-- **C16.u2**  The column list matters only through which name sits where: compile the same tree against two lists of
+distinct names with the same members (a permutation), under any iteration orders. It compiles against one exactly when
+it compiles against the other; the values `b` are identical and every coefficient moves with its column:
+`A'[i][j'] = A[i][j]` whenever `names'[j'] = names[j]`. (The history stream compiles one specification against
+permuted lists in one process; this is the statement it checks.) -/
+theorem column_order_equivariant (sh sh' : Shuffle) (hsh : IsShuffle sh) (hsh' : IsShuffle sh') (names names' : List String)
+    (hnd : names.Nodup) (hnd' : names'.Nodup) (hset : ∀ v, v ∈ names ↔ v ∈ names') (n : Node) :
+    ((∃ A b, getMatrix sh names (.ast n) = .ok (A, b)) ↔ (∃ A' b', getMatrix sh' names' (.ast n) = .ok (A', b'))) ∧
+    (∀ A b A' b', getMatrix sh names (.ast n) = .ok (A, b) → getMatrix sh' names' (.ast n) = .ok (A', b') →
+      b' = b ∧ A'.length = A.length ∧
+      ∀ (i : Nat) (hi : i < A.length) (hi' : i < A'.length) (j j' : Nat) (hj : j < names.length) (hj' : j' < names'.length),
+        names[j] = names'[j'] → (A'[i])[j']? = (A[i])[j]?) := by
+  constructor
+  · rw [getMatrix_ok_iff hsh names n, getMatrix_ok_iff hsh' names' n]
+    exact acceptable_same_columns hset n
+  · intro A b A' b' h h'
+    obtain ⟨es, hes, hr⟩ := getMatrix_sound hsh names _ h
+    obtain ⟨es', hes', hr'⟩ := getMatrix_sound hsh' names' _ h'
+    rw [hes] at hes'; cases hes'
+    exact rows_equivariant hnd hnd' hset hr hr'
+
+/-- **C16.u3**  …and against ANY list of distinct names (permuted, extended, shrunk): every entry of the result is
+determined by the tree and the NAME of its column alone — `b_i = −⟦e_i⟧(0)` and `A[i][j] = ⟦e_i⟧(1 at names[j], 0
+elsewhere) − ⟦e_i⟧(0)` — not by the column's position, the other columns, earlier compilations or the iteration
+order. -/
+theorem entries_depend_only_on_the_name (sh : Shuffle) (hsh : IsShuffle sh) (names : List String) (hnd : names.Nodup)
+    (n : Node) (A : List (List Rat)) (b : List Rat) (h : getMatrix sh names (.ast n) = .ok (A, b)) :
+    ∃ es, constraintsOf n = some es ∧ A.length = es.length ∧ b.length = es.length ∧
+      ∀ (i : Nat) (hA : i < A.length) (hb : i < b.length) (he : i < es.length),
+        eval env0 es[i] = some (-b[i]) ∧
+        ∀ (j : Nat) (hj : j < names.length), ∃ a, (A[i])[j]? = some a ∧ eval (indicator names[j]) es[i] = some (a - b[i]) := by
+  obtain ⟨es, hes, hr⟩ := getMatrix_sound hsh names _ h
+  refine ⟨es, hes, hr.lengths.1, hr.lengths.2, fun i hA hb he => ?_⟩
+  have r := hr.get i hA hb he
+  obtain ⟨h0, hj⟩ := row_by_name hnd r
+  refine ⟨h0, fun j hjl => ⟨(A[i])[j]'(r.1 ▸ hjl), List.getElem?_eq_getElem _, hj j hjl⟩⟩
+
+/-- non-vacuity: `a + 2*b = 3` against `a, b` and against `b, a` -/
+example : getMatrix id ["a", "b"] (.ast (.bin .eq (.bin .add (.leaf .name "a") (.bin .mul (.leaf .value "2") (.leaf .name "b"))) (.leaf .value "3")))
+      = .ok ([[1, 2]], [3])
+    ∧ getMatrix id ["b", "a"] (.ast (.bin .eq (.bin .add (.leaf .name "a") (.bin .mul (.leaf .value "2") (.leaf .name "b"))) (.leaf .value "3")))
+      = .ok ([[2, 1]], [3]) := by decide +kernel
+
+/-! ## Every kind of specification: `LinearConstraints.from_spec` and the constructor
+
+`Model/ConstraintForms.lean`: `fromSpecAny sh parse names spec` is the model of
+`LinearConstraints.from_spec(spec, variable_names)` for a Python object `spec : PyVal` (instance, string, list,
+mapping, tuple, ndarray, number, `None`) and `names : Option (List String)` (`None` or a list), including the
+constructor's `numpy.array` shape discovery, reshaping, broadcasting, default names and validations.
+`encode` turns the three formula forms into the Python objects; `compiledLC A b ns` is the instance holding a
+compiled `(A, b)` over the columns `ns`; `ratMatrix M`, `rowArr v` are a table / a row of numbers as array-likes. -/
+
+open FormulaicVerif.Model.ConstraintForms FormulaicVerif.Proofs.C16Forms
+
+/-- **C16.f1**  The formula forms (string, list of strings, mapping) given variable names: the result of the compiler
+goes through the constructor unchanged — the constructor cannot fail on it — so every theorem about `fromSpec`
+is a theorem about `from_spec`. -/
+theorem from_spec_formula_forms (sh : Shuffle) (hsh : IsShuffle sh) (parse : String → Parsed) (ns : List String) (spec : Spec) :
+    fromSpecAny sh parse (some ns) (encode spec) = match fromSpec sh ns parse spec with
+      | .error e => .error (.compile e)
+      | .ok (A, b) => .ok (compiledLC A b ns) := by
+  rw [fromSpecAny_encode]; exact formula_eq hsh parse ns spec
+
+/-- **C16.f2**  `compile_sound` for `from_spec` itself: a returned instance holds one row and one value per written
+constraint, in order, `n_constraints` is their number, every row is as wide as the column list, and row `i`
+satisfies `A_i·x − b_i = ⟦lhs_i⟧x − ⟦rhs_i⟧x − offset_i` for every `x`. -/
+theorem compile_sound_every_form (sh : Shuffle) (hsh : IsShuffle sh) (parse : String → Parsed) (ns : List String)
+    (spec : Spec) (lc : LC) (h : fromSpecAny sh parse (some ns) (encode spec) = .ok lc) :
+    ∃ A b cs, lc = compiledLC A b ns ∧ written parse spec = some cs ∧ lc.nConstraints = cs.length ∧
+      lc.values.length = cs.length ∧ lc.ncols = ns.length ∧
+      ∀ (i : Nat) (hA : i < A.length) (hb : i < b.length) (hc : i < cs.length), RowExpresses ns (A[i], b[i]) cs[i] := by
+  rw [from_spec_formula_forms sh hsh] at h
+  cases hf : fromSpec sh ns parse spec with
+  | error e => rw [hf] at h; cases h
+  | ok r =>
+    obtain ⟨A, b⟩ := r
+    rw [hf] at h
+    simp only [Except.ok.injEq] at h
+    obtain ⟨cs, hw, la, lb, hr⟩ := compile_sound sh hsh ns parse spec A b hf
+    exact ⟨A, b, cs, h.symm, hw, by simp [← h, LC.nConstraints, compiledLC, la],
+      by simp [← h, compiledLC, numCells, lb], by simp [← h, compiledLC], hr⟩
+
+/-- **C16.f3**  …and `accepted_iff` for `from_spec` itself. -/
+theorem accepted_iff_every_form (sh : Shuffle) (hsh : IsShuffle sh) (parse : String → Parsed) (ns : List String) (spec : Spec) :
+    (∃ lc, fromSpecAny sh parse (some ns) (encode spec) = .ok lc) ↔ specAcceptable ns parse spec := by
+  rw [from_spec_formula_forms sh hsh, ← accepted_iff sh hsh]
+  cases fromSpec sh ns parse spec with
+  | error e => simp
+  | ok r => obtain ⟨A, b⟩ := r; simp
+
+/-- **C16.f4**  Without variable names a formula form is rejected, whatever it says (before anything is parsed). -/
+theorem names_required (sh : Shuffle) (parse : String → Parsed) (spec : Spec) :
+    fromSpecAny sh parse none (encode spec) = .error .namesRequired := by
+  rw [fromSpecAny_encode]; rfl
+
+/-- **C16.f5**  A `LinearConstraints` instance is returned as it is; the variable names passed along are ignored. -/
+theorem instance_returned_as_is (sh : Shuffle) (parse : String → Parsed) (names : Option (List String)) (lc : LC) :
+    fromSpecAny sh parse names (.inst lc) = .ok lc := rfl
+
+/-- **C16.f6**  A list of strings is the string obtained by joining with commas — also without names, also when
+malformed, also the empty list (the empty string: no constraint). -/
+theorem list_form_is_joined_string (sh : Shuffle) (parse : String → Parsed) (names : Option (List String)) (ss : List String) :
+    fromSpecAny sh parse names (encode (.list ss)) = fromSpecAny sh parse names (encode (.str (",".intercalate ss))) := by
+  rw [fromSpecAny_encode, fromSpecAny_encode]
+  cases names <;> rfl
+
+/-- **C16.f7**  Everything that is not an instance, a formula form or a 2-tuple is a matrix with all values zero:
+a numpy array, a list that is not all strings, a tuple of another length — the same as the pair `(spec, 0)`. -/
+theorem bare_matrix_is_pair_with_zero (sh : Shuffle) (parse : String → Parsed) (names : Option (List String)) :
+    (∀ a, fromSpecAny sh parse names (.nd a) = fromSpecAny sh parse names (.tuple [a, .num 0])) ∧
+    (∀ xs, allText xs = none → fromSpecAny sh parse names (.list xs) = fromSpecAny sh parse names (.tuple [.seq xs, .num 0])) ∧
+    (∀ xs, xs.length ≠ 2 → fromSpecAny sh parse names (.tuple xs) = fromSpecAny sh parse names (.tuple [.seq xs, .num 0])) := by
+  refine ⟨fun a => rfl, fun xs h => by simp only [fromSpecAny, h], fun xs h => ?_⟩
+  match xs, h with
+  | [], _ => rfl
+  | [_], _ => rfl
+  | [_, _], h => exact absurd rfl h
+  | _ :: _ :: _ :: _, _ => rfl
+
+/-- **C16.f8**  `(matrix, values)` with a table of numbers and a row of numbers: accepted EXACTLY when the table is
+rectangular, there is one value per row and the names, when given (and not empty), are one per column; the
+instance then holds the table and the values as given, in order. A ragged table is rejected by numpy. -/
+theorem pair_form_accepted_iff (sh : Shuffle) (parse : String → Parsed) (names : Option (List String))
+    (r : List Rat) (M : List (List Rat)) (v : List Rat) (lc : LC) :
+    (fromSpecAny sh parse names (.tuple [ratMatrix (r :: M), rowArr v]) = .ok lc ↔
+      (∀ r' ∈ M, r'.length = r.length) ∧ v.length = M.length + 1 ∧ (resolved names r.length).length = r.length ∧
+      lc = { matrix := (r :: M).map numCells, ncols := r.length, values := numCells v,
+             names := finalNames (resolved names r.length) (M.length + 1) }) ∧
+    (¬ (∀ r' ∈ M, r'.length = r.length) →
+      ∀ vv, fromSpecAny sh parse names (.tuple [ratMatrix (r :: M), vv]) = .error .inhomogeneous) := by
+  refine ⟨initLC_pair r M v names lc, fun hrag vv => ?_⟩
+  simp only [fromSpecAny, initLC, npArray]
+  cases hs : (ratMatrix (r :: M)).shape with
+  | error e => rw [shape_ratMatrix_error r M e hs]
+  | ok s => exact absurd ((shape_ratMatrix r M s).mp hs).2 hrag
+
+/-- **C16.f9**  A scalar value (and the bare matrix: value 0) is repeated for every row; a flat row of numbers is
+a one-row table. -/
+theorem scalar_values_and_flat_rows (sh : Shuffle) (parse : String → Parsed) (names : Option (List String))
+    (r : List Rat) (M : List (List Rat)) (q : Rat) (lc : LC) :
+    (fromSpecAny sh parse names (.tuple [ratMatrix (r :: M), .num q]) = .ok lc ↔
+      (∀ r' ∈ M, r'.length = r.length) ∧ (resolved names r.length).length = r.length ∧
+      lc = { matrix := (r :: M).map numCells, ncols := r.length, values := List.replicate (M.length + 1) (.num q),
+             names := finalNames (resolved names r.length) (M.length + 1) }) ∧
+    (∀ vv, fromSpecAny sh parse names (.tuple [rowArr r, vv]) = fromSpecAny sh parse names (.tuple [ratMatrix [r], vv])) :=
+  ⟨initLC_scalar r M q names lc, fun vv => initLC_flat_row r vv names⟩
+
+/-- **C16.f10**  Whatever is passed (any nest of numbers and strings, any names), an instance that `from_spec`
+BUILDS is well shaped: one value per row, every row `ncols` wide, one name per column — except that with no
+column the names are `x0 … x(rows−1)` (the constructor's last line, code as it is). -/
+theorem built_instance_well_shaped (sh : Shuffle) (hsh : IsShuffle sh) (parse : String → Parsed) (names : Option (List String))
+    (spec : PyVal) (lc : LC) (hni : ∀ lc', spec ≠ .inst lc') (h : fromSpecAny sh parse names spec = .ok lc) :
+    WellShaped lc := by
+  have form : ∀ sp, formula sh parse names sp = .ok lc → WellShaped lc := by
+    intro sp hf
+    cases names with
+    | none => cases hf
+    | some ns =>
+      rw [formula_eq hsh] at hf
+      cases hc : fromSpec sh ns parse sp with
+      | error e => rw [hc] at hf; cases hf
+      | ok r =>
+        obtain ⟨A, b⟩ := r
+        rw [hc] at hf
+        simp only [Except.ok.injEq] at hf
+        subst hf
+        exact compiledLC_wellShaped hsh ns parse sp hc
+  cases spec with
+  | inst lc' => exact absurd rfl (hni lc')
+  | none => cases h
+  | num q => exact initLC_wellShaped (.num q) (.num 0) names lc h
+  | str s => exact form _ h
+  | dict items => exact form _ h
+  | nd a => exact initLC_wellShaped a (.num 0) names lc h
+  | list xs =>
+    simp only [fromSpecAny] at h
+    cases ha : allText xs with
+    | some ss => rw [ha] at h; exact form _ h
+    | none => rw [ha] at h; exact initLC_wellShaped _ _ _ _ h
+  | tuple xs =>
+    match xs, h with
+    | [], h => exact initLC_wellShaped (.seq []) (.num 0) names lc h
+    | [x], h => exact initLC_wellShaped (.seq [x]) (.num 0) names lc h
+    | [m, v], h => exact initLC_wellShaped m v names lc h
+    | x :: y :: z :: rest, h => exact initLC_wellShaped (.seq (x :: y :: z :: rest)) (.num 0) names lc h
+
+/-- **C16.f11**  What a matrix form denotes: over distinct column names, row `i` of an accepted `(matrix, values)`
+expresses — in the very sense of `compile_sound` — the linear combination `Σ M_ij·name_j` set equal to `values_i`. -/
+theorem matrix_form_denotes (ns : List String) (hnd : ns.Nodup) (row : List Rat) (hl : row.length = ns.length) (c : Rat) :
+    RowExpresses ns (row, c) (linExpr ns row, c) :=
+  row_expresses_linExpr hnd hl c
+
+/-- **C16.f12**  The forms agree: the `(A, b)` a formula form compiles to, passed back as the pair `(A, b)` with the
+same names, is accepted and gives the same instance (at least one constraint; an empty table of numbers has no
+width). Together with `same_map_same_result` and `matrix_form_denotes`: a matrix form and any formula form that
+says the same maps yield the same instance. -/
+theorem forms_agree (sh : Shuffle) (hsh : IsShuffle sh) (parse : String → Parsed) (ns : List String) (spec : Spec)
+    (A : List (List Rat)) (b : List Rat) (h : fromSpec sh ns parse spec = .ok (A, b)) (hne : A ≠ []) :
+    fromSpecAny sh parse (some ns) (encode spec) = .ok (compiledLC A b ns) ∧
+    fromSpecAny sh parse (some ns) (.tuple [ratMatrix A, rowArr b]) = .ok (compiledLC A b ns) := by
+  refine ⟨by rw [from_spec_formula_forms sh hsh, h], ?_⟩
+  obtain ⟨cs, _, la, lb, hr⟩ := compile_sound sh hsh ns parse spec A b h
+  have width : ∀ a ∈ A, a.length = ns.length := by
+    intro a ha
+    obtain ⟨i, hi, rfl⟩ := List.mem_iff_getElem.mp ha
+    exact (hr i hi (by rw [lb, ← la]; exact hi) (by rw [← la]; exact hi)).1
+  cases A with
+  | nil => exact absurd rfl hne
+  | cons r M =>
+    have hr0 : r.length = ns.length := width r (by simp)
+    apply (pair_form_accepted_iff sh parse (some ns) r M b _).1.mpr
+    refine ⟨fun r' hr' => (width r' (by simp [hr'])).trans hr0.symm, by rw [lb, ← la]; rfl, ?_, ?_⟩
+    · cases ns with
+      | nil => simpa [resolved, defaultNames] using hr0.symm
+      | cons n ns' => simpa [resolved] using hr0.symm
+    · simp only [compiledLC, List.length_cons, hr0]
+      cases ns with
+      | nil => rfl
+      | cons n ns' => rfl
+
+/-- **C16.f13**  `n_constraints` of a built instance: the number of written constraints (formula forms, in
+`compile_sound_every_form`), the number of rows given (matrix forms), one for a flat row. -/
+theorem n_constraints_matrix_forms (sh : Shuffle) (parse : String → Parsed) (names : Option (List String))
+    (r : List Rat) (M : List (List Rat)) (lc : LC) :
+    (∀ v, fromSpecAny sh parse names (.tuple [ratMatrix (r :: M), rowArr v]) = .ok lc → lc.nConstraints = M.length + 1) ∧
+    (∀ q, fromSpecAny sh parse names (.tuple [ratMatrix (r :: M), .num q]) = .ok lc → lc.nConstraints = M.length + 1) ∧
+    (∀ q, fromSpecAny sh parse names (.tuple [rowArr r, .num q]) = .ok lc → lc.nConstraints = 1) := by
+  refine ⟨fun v h => ?_, fun q h => ?_, fun q h => ?_⟩
+  · obtain ⟨_, _, _, rfl⟩ := (pair_form_accepted_iff sh parse names r M v lc).1.mp h
+    simp [LC.nConstraints]
+  · obtain ⟨_, _, rfl⟩ := (scalar_values_and_flat_rows sh parse names r M q lc).1.mp h
+    simp [LC.nConstraints]
+  · rw [(scalar_values_and_flat_rows sh parse names r [] q lc).2] at h
+    obtain ⟨_, _, rfl⟩ := (scalar_values_and_flat_rows sh parse names r [] q lc).1.mp h
+    simp [LC.nConstraints]
+
+/-- **C16.f16**  Every matrix form has an equivalent formula, constructively: over distinct column names, row `i` of
+an accepted `(matrix, values)` pair is EXACTLY what the formula tree `rowNode` — `M_i0 * n_0 + (M_i1 * n_1 + …) = v_i`,
+each number written as the quotient of two numeric literals — compiles to (whatever the set iteration order). So the
+matrix forms add nothing to what formulas can say, and say it identically. -/
+theorem matrix_form_has_formula (sh : Shuffle) (hsh : IsShuffle sh) (parse : String → Parsed) (ns : List String)
+    (hnd : ns.Nodup) (hne : ns ≠ []) (r : List Rat) (M : List (List Rat)) (v : List Rat) (lc : LC)
+    (h : fromSpecAny sh parse (some ns) (.tuple [ratMatrix (r :: M), rowArr v]) = .ok lc) :
+    ∀ (i : Nat) (hi : i < (r :: M).length) (hv : i < v.length),
+      getMatrix sh ns (.ast (rowNode ns (r :: M)[i] v[i])) = .ok ([(r :: M)[i]], [v[i]]) := by
+  obtain ⟨hrect, _, hnm, _⟩ := (pair_form_accepted_iff sh parse (some ns) r M v lc).1.mp h
+  have hns : ns.length = r.length := by
+    cases ns with
+    | nil => exact absurd rfl hne
+    | cons n ns' => simpa [resolved] using hnm
+  intro i hi hv
+  apply getMatrix_rowNode hsh hnd
+  have hmem : (r :: M)[i] ∈ r :: M := List.getElem_mem hi
+  rcases List.mem_cons.mp hmem with e | e
+  · rw [e, hns]
+  · rw [hrect _ e, hns]
+
+/-- non-vacuity, and the link to strings: the modelled parser reads the text of such a formula as that tree -/
+example : getMatrix id ["a", "b"] (.ast (rowNode ["a", "b"] [1, -1/2] 3)) = .ok ([[1, -1/2]], [3]) := by decide +kernel
+example : (match parseString asciiChars "1./1.*a + ((-(1./2.))*b + 0.) = 3./1." with | .ast n => some n | _ => none)
+    = some (rowNode ["a", "b"] [1, -1/2] 3) := by decide +kernel
+
+/-- **C16.f14**  A mapping with one entry `{k: c}` is the string `k` with every value raised by `c` (and
+`rows_in_order_written` gives the entries of a longer mapping one after the other). -/
+theorem dict_entry_is_string_shifted (sh : Shuffle) (names : List String) (parse : String → Parsed) (k : String) (c : Rat) :
+    fromSpec sh names parse (.dict [(k, c)]) = match fromSpec sh names parse (.str k) with
+      | .error e => .error e
+      | .ok (A, b) => .ok (A, b.map (· + c)) := by
+  simp only [fromSpec, dictRows]
+  cases getMatrix sh names (parse k) with
+  | error e => rfl
+  | ok r => obtain ⟨A, b⟩ := r; simp
+
+/-- **C16.f15** (tie to the source, finite table)  The messages the model attaches to its errors are exactly the
+literal messages of the `raise` statements of `formulaic/utils/constraints.py`, read from the live source on every
+run (`Gen/ConstraintMessages.lean`), with the exception constructor of each, in source order. The correspondence
+compares the message of every error the implementation raises with the model's. -/
+theorem messages_match_source :
+    FormulaicVerif.Gen.constraintRaises.map (fun r => (r.2.1, r.2.2)) = messageTable := by decide
+
+/-- non-vacuity of the form theorems: the same two constraints as a string, a mapping, a pair and a bare matrix -/
+example : fromSpecAny id exParse (some ["a", "b"]) (encode (.str "a + 2*b = 3, a/2"))
+    = .ok (compiledLC [[1, 2], [1/2, 0]] [3, 0] ["a", "b"]) := by decide +kernel
+example : fromSpecAny id exParse (some ["a", "b"]) (.tuple [ratMatrix [[1, 2], [1/2, 0]], rowArr [3, 0]])
+    = .ok (compiledLC [[1, 2], [1/2, 0]] [3, 0] ["a", "b"]) := by decide +kernel
+example : fromSpecAny id exParse none (.tuple [ratMatrix [[1, 2], [1/2, 0]], .num 0])
+    = .ok { matrix := [[.num 1, .num 2], [.num (1/2), .num 0]], ncols := 2, values := [.num 0, .num 0], names := ["x0", "x1"] } := by
+  decide +kernel
+example : fromSpecAny id exParse (some ["a"]) (.tuple [ratMatrix [[1, 2], [3]], rowArr [0, 0]]) = .error .inhomogeneous := by
+  decide +kernel
+example : fromSpecAny id exParse (some ["a"]) (.tuple [ratMatrix [[1, 2]], rowArr [0]]) = .error .namesMismatch := by
+  decide +kernel
+example : fromSpecAny id exParse none (.num 5) = .error .indexError := by decide +kernel
+/-- the quirk `built_instance_well_shaped` documents: no column, names `x0` -/
+example : fromSpecAny id (fun _ => .ast (.leaf .value "1")) (some []) (.str "1")
+    = .ok { matrix := [[]], ncols := 0, values := [.num (-1)], names := ["x0"] } := by decide +kernel
+example : (["a", "b"] : List String).Nodup := by decide
 
 end FormulaicVerif.Props.C16
